@@ -33,8 +33,9 @@ def handle (st : DState) (req : Sexp) : DState × String :=
   | .list [.atom "walk", k, fd, cj, pfc, .list (.atom "roots" :: rs), .list (.atom "skip" :: sk)] =>
     match walkOpts? k fd cj pfc, nats? rs, nats? sk with
     | some o, some rs, some sk =>
-      let es := st.graph.walk o rs (fun s => sk.contains s)
-      (st, joinSp (es.map fun (s, e) => s!"{s}:{e.show}"))
+      match st.graph.walk? o rs (fun s => sk.contains s) with
+      | some es => (st, joinSp (es.map fun (s, e) => s!"{s}:{e.show}"))
+      | none => (st, "OUT-OF-FUEL")
     | _, _, _ => (st, "bad-op")
   | .list [.atom "errors", k, fd, cj, pfc, .list (.atom "roots" :: rs)] =>
     match walkOpts? k fd cj pfc, nats? rs with
